@@ -788,7 +788,8 @@ func (in *interp) opEmpty(v *univ.Node) Allowed {
 	case univ.KSlice, univ.KArray, univ.KMap:
 		return boolSet(len(v.Items) == 0)
 	case univ.KChan:
-		return unspec("length of a channel")
+		// channels of the universe never hold elements (nil or empty)
+		return boolSet(true)
 	}
 	return one(E)
 }
